@@ -41,6 +41,12 @@ func (g *Gen) setResults(f *Frame, v ssa.Value, sig *types.Signature, rs []Term)
 	case 1:
 		n := g.define(f.name(v), rs[0].Sort, rs[0].S)
 		f.vals[v] = Term{n, rs[0].Sort, sig.Results().At(0).Type()}
+		if ci, ok := g.resolveFuncValue(rs[0]); ok {
+			if g.closures == nil {
+				g.closures = map[string]closureInfo{}
+			}
+			g.closures[n] = ci
+		}
 	default:
 		f.tuples[v] = rs
 	}
@@ -304,6 +310,15 @@ func (g *Gen) inline(f *Frame, callee *ssa.Function, args []Arg, binds []Arg, in
 		}
 		srt := g.d.sortOf(rt)
 		rs = append(rs, Term{g.defFresh(cf.prefix+"ret", srt, t), srt, rt})
+		if len(cf.exits) == 1 {
+			// a function value returned by the callee keeps its identity
+			if ci, ok := g.resolveFuncValue(cf.exits[0].results[k]); ok {
+				if g.closures == nil {
+					g.closures = map[string]closureInfo{}
+				}
+				g.closures[rs[k].S] = ci
+			}
+		}
 	}
 	return rs
 }
